@@ -344,6 +344,33 @@ def YEAR(
     return int(date.strftime("%Y"))
 
 
+def _is_last_day_of_february(date):
+    return date.month == 2 and (date + datetime.timedelta(days=1)).month == 3
+
+
+def _days_30_360(start_date, end_date, european):
+    """Days between two dates counting every month as 30 days."""
+    day1, day2 = start_date.day, end_date.day
+    if european:
+        # A 31st counts as the 30th.
+        day1, day2 = min(day1, 30), min(day2, 30)
+    else:
+        # US (NASD) method: the last day of February counts as the 30th,
+        # a 31st as the 30th (the end date only after a start on the 30th).
+        if _is_last_day_of_february(start_date):
+            if _is_last_day_of_february(end_date):
+                day2 = 30
+            day1 = 30
+        if day2 == 31 and day1 >= 30:
+            day2 = 30
+        if day1 == 31:
+            day1 = 30
+    return (
+        (end_date.year - start_date.year) * 360
+        + (end_date.month - start_date.month) * 30
+        + (day2 - day1))
+
+
 @xl.register()
 @xl.validate_args
 def YEARFRAC(
@@ -373,7 +400,7 @@ def YEARFRAC(
     start_date, end_date = start_date.value, end_date.value
 
     if basis == 0:  # US 30/360
-        return yearfrac.yearfrac(start_date, end_date, '30e360_matu')
+        return _days_30_360(start_date, end_date, european=False) / 360
     elif basis == 1:  # Actual/actual
         return yearfrac.yearfrac(start_date, end_date, 'act_afb')
     elif basis == 2:  # Actual/360
@@ -381,7 +408,7 @@ def YEARFRAC(
     elif basis == 3:  # Actual/365
         return (end_date - start_date).days / 365
     elif basis == 4:  # Eurobond 30/360
-        return yearfrac.yearfrac(start_date, end_date, '30e360')
+        return _days_30_360(start_date, end_date, european=True) / 360
 
     raise xlerrors.ValueExcelError(
         f'basis must be 0, 1, 2, 3 or 4, got {basis}')
